@@ -14,7 +14,7 @@ from ..machine import Machine
 ID = "C03"
 TIERS = {"quick": dict(runs=900, budget=40, det=12),
          "thorough": dict(runs=60000, budget=560, det=120)}
-INCONCLUSIVE_CEILING = 0.08
+INCONCLUSIVE_CEILING = 0.15
 RULE = ("seeded histories (new / set_params / fit / refit on data of other size and "
         "dimensionality / failing fit / clone / pickle restart / ambient RNG perturbation / "
         "ARPACK reseed and forced non-convergence) over the 17 estimators x documented option "
